@@ -267,23 +267,23 @@ def h_parse(ob, concrete=None):
 
 
 def bounds(tier):
-    return {"string_cells": "3 over all of Unicode (thorough 5); 6 over [a-z0-9./-] (thorough 8 over [A-Za-z0-9._-])", "tuple_elements": "0-3 ints in [-999,999] / 0-2 strings of 1 cell (thorough 2)", "int_range": [INT_LO, INT_HI], "floats": [repr(f) for f in FLOATS], "registered_passes_with_options": len(reg()),
+    return {"string_cells": "3 over all of Unicode (thorough 4); 6 over [a-z0-9./-] (thorough 7 over [A-Za-z0-9./_^\\[\\]-])", "tuple_elements": "0-3 ints in [-999,999] / 0-2 strings of 1 cell (thorough 2)", "int_range": [INT_LO, INT_HI], "floats": [repr(f) for f in FLOATS], "registered_passes_with_options": len(reg()),
             "parse_templates": TEMPLATES, "hole_cells": 2 if tier == "quick" else 3}
 
 
 def obligations(tier):
-    sl = 3 if tier == "quick" else 5
+    sl = 3 if tier == "quick" else 4
     obs = []
     for k in GEN:
         n = sl if k in ("str",) else (2 if tier == "quick" else 3)
         if k in ("two", "three"):
-            n = 1 if tier == "quick" else 2
+            n = 1
         obs.append({"id": f"C18/roundtrip/gen/{k}", "kind": "roundtrip", "family": "gen", "cls": k, "strlen": n, "weight": 5 if "str" in k else 2, "narrow": k in ("two", "three"), "tuple_max": 1 if k == "three" else 3,
                     "tuple_strlen": 1 if tier == "quick" else 2})
     # longer strings over a word alphabet (keywords such as true/false/none live here): cells split into letters / digits,-,_
     for k in ("str", "opt-str", "tup-str"):
-        obs.append({"id": f"C18/roundtrip/gen/{k}/word-alphabet", "kind": "roundtrip", "family": "gen", "cls": k, "strlen": 6 if tier == "quick" else 8, "weight": 4,
-                    "partition": [(97, 122), (45, 57)] if tier == "quick" else [(97, 122), (65, 90), (48, 57), (45, 46), (95, 95)], "tuple_strlen": 5, "tuple_max": 1})
+        obs.append({"id": f"C18/roundtrip/gen/{k}/word-alphabet", "kind": "roundtrip", "family": "gen", "cls": k, "strlen": 6 if tier == "quick" else 7, "weight": 4,
+                    "partition": [(97, 122), (45, 57)] if tier == "quick" else [(97, 122), (65, 95), (45, 57)], "tuple_strlen": 5, "tuple_max": 1})
     for name, cls in reg().items():
         for fl in dataclasses.fields(cls):
             if fl.init:
